@@ -11,6 +11,7 @@ import json
 import os
 import struct
 import tempfile
+import threading
 import time
 import traceback
 from contextlib import contextmanager
@@ -92,6 +93,7 @@ class Ctx:
         self.work = os.environ.get("VMON_WORK") or tempfile.mkdtemp(prefix="vmon-w-")
         os.makedirs(self.work, exist_ok=True)
         self.sink = os.path.join(self.work, "child_events.jsonl")
+        self._lock = threading.RLock()   # ambient monitors may report from several threads of the code under test
 
     # ---- work splitting -------------------------------------------------
     def mine(self, i: int) -> bool:
@@ -109,10 +111,12 @@ class Ctx:
 
     # ---- accounting -----------------------------------------------------
     def ev(self, n: int = 1):
-        self.evaluations += n
+        with self._lock:
+            self.evaluations += n
 
     def tally(self, key: str, n: int = 1):
-        self.tallies[key] = self.tallies.get(key, 0) + n
+        with self._lock:
+            self.tallies[key] = self.tallies.get(key, 0) + n
 
     def nontrivial(self, *descr):
         self.digests.add(digest8(*descr))
@@ -153,10 +157,11 @@ class Ctx:
             if len(self.ambient) < 20:
                 self.ambient.append(rec)
             return
-        n = self.viol_counts.get(mechanism, 0) + 1
-        self.viol_counts[mechanism] = n
-        if n <= self.MAX_VIOL_PER_MECH:
-            self.violations.append(rec)
+        with self._lock:
+            n = self.viol_counts.get(mechanism, 0) + 1
+            self.viol_counts[mechanism] = n
+            if n <= self.MAX_VIOL_PER_MECH:
+                self.violations.append(rec)
 
     def check(self, cond, mechanism: str, detail="", case=None, owner=None) -> bool:
         if not cond:
